@@ -6,7 +6,7 @@
 
 import logging
 from collections import defaultdict
-from typing import Optional, cast
+from typing import Iterator, Optional, cast
 
 from clingo.ast import (
     AST,
@@ -219,8 +219,17 @@ class SumAggregator:
         otherwise equal values of different groups form one tuple and may not be counted per group.
         An anonymous group argument is only fine where the defining rule has a ground term (a single group)"""
         tuple_vars = set()
+
+        def identifying(term: AST) -> Iterator[AST]:
+            """variables whose value can be read off the term (not G/2, G*G, |G|)"""
+            if term.ast_type == ASTType.Variable:
+                yield term
+            elif term.ast_type == ASTType.Function:
+                for arg in term.arguments:
+                    yield from identifying(arg)
+
         for term in terms:
-            tuple_vars.update(collect_ast(term, "Variable"))
+            tuple_vars.update(identifying(term))
         ground = self._ground_positions.get(trigger_anon_pred, set())
         for index, arg in enumerate(trigger_lit.atom.symbol.arguments):
             if index in trigger_anon_pred.annotated_positions:
